@@ -959,6 +959,128 @@ def check_mutants(ctx, rng, n_generated, n_sample, stats, hist, errkinds, sample
             stats["prog_f2"] += 1
 
 
+# ------------------------------------------------------------------ branch joins (if / else-if chains, if-let chains, match arms)
+
+JOIN_TYPES = {  # source type -> (an expression of exactly that type, model type string)
+    "int": ("a", "i"), "bool": ("b", "b"), "Str": ("s", "n0,0,1()"), "P": ("p", "n0,1,2()"),
+    "Q": ("q", "n0,1,3()"), "Bx<int>": ("bi", "n0,1,4(i)"), "Bx<bool>": ("bb", "n0,1,4(b)"),
+    "unit": ("Process.println(\"u\")", "u")}
+JOIN_USE = {"int": "useI", "bool": "useB", "Str": "useS", "P": "useP", "Q": "useQ", "Bx<int>": "useBi",
+            "Bx<bool>": "useBb", "unit": "useU"}
+JOIN_PRELUDE = (
+    "class P(val v: int) {\n  method get(): int = this.v\n}\n"
+    "class Q(val w: bool) {\n  method get(): bool = this.w\n}\n"
+    "class Bx<T>(val c: T) {\n  method get(): T = this.c\n}\n"
+    "class E(A, B(int), C(bool)) {\n  method k(): int = 0\n}\n"
+    "class E5(V1, V2, V3, V4, V5) {\n  method k(): int = 0\n}\n"
+    "class O(N, S(int)) {\n  method k(): int = 0\n}\n"
+    "class Main {\n" + "".join(f"  function {f}(x: {t}): unit = Process.println(\"k\")\n" for t, f in JOIN_USE.items()))
+JOIN_CONTEXTS = ["ret", "alet", "arg", "ulet", "wild", "stmt"]
+JOIN_CONSTRUCTS = [("if", 2), ("if", 3), ("if", 4), ("if", 5), ("iflet", 2), ("iflet", 3), ("iflet", 4),
+                   ("match-E", 3), ("match-E5", 5), ("match-O", 2)]
+
+
+def join_body(rng, ty, uid):
+    """A branch body of exactly type `ty`, possibly behind a type-preserving wrapper."""
+    v = JOIN_TYPES[ty][0]
+    k = rng.below(5)
+    if k == 0:
+        return f"let z{uid} = 1; {v}"
+    if k == 1:
+        return f"(if b {{ {v} }} else {{ {v} }})"
+    if k == 2:
+        return f"match e {{ A -> {v}, B(_) -> {v}, C(_) -> {v} }}"
+    return v
+
+
+def join_program(rng, construct, n, tys, context, ctx_ty):
+    bodies = [join_body(rng, t, i) for i, t in enumerate(tys)]
+    if construct in ("if", "iflet"):
+        parts = []
+        for i in range(n - 1):
+            if construct == "iflet" and (i == 0 or rng.chance(1, 2)):
+                cond = f"let S(v{i}) = o"
+            else:
+                cond = rng.pick(["b", f"a > {i}", "!b", f"a == {i}"])
+            parts.append(f"if {cond} {{ {bodies[i]} }}")
+        text = " else ".join(parts) + f" else {{ {bodies[-1]} }}"
+    else:
+        pats = {"match-E": ["A", "B(_)", "C(_)"], "match-E5": ["V1", "V2", "V3", "V4", "V5"], "match-O": ["N", "S(_)"]}[construct]
+        subj = {"match-E": "e", "match-E5": "e5", "match-O": "o"}[construct]
+        text = f"match {subj} {{ " + ", ".join(f"{p} -> {{ {b} }}" for p, b in zip(pats, bodies)) + " }"
+    ret = "unit"
+    tail = "Process.println(\"k\")"
+    if context == "ret":
+        ret, body = ctx_ty, text
+    elif context == "alet":
+        body = f"let x: {ctx_ty} = {text};\n    {tail}"
+    elif context == "arg":
+        body = f"Main.{JOIN_USE[ctx_ty]}({text})"
+    elif context == "ulet":
+        body = f"let x = {text};\n    {tail}"
+    elif context == "wild":
+        body = f"let _ = {text};\n    {tail}"
+    else:
+        body = f"{text};\n    {tail}"
+    src = (JOIN_PRELUDE +
+           f"  function t(a: int, b: bool, s: Str, p: P, q: Q, bi: Bx<int>, bb: Bx<bool>, e: E, e5: E5, o: O): {ret} = {{\n"
+           f"    {body}\n  }}\n  function main(): unit = Process.println(\"m\")\n}}\n")
+    return src
+
+
+def check_joins(ctx, rng, rounds, stats, hist):
+    """Every branch position of every joining construct, in constrained and unconstrained
+    contexts. Which programs are ill-typed comes from the Lean model of the join rule
+    (`ifChainOk` / `matchArmsOk`, theorems ifChain_join_exact / match_join_exact); the real checker
+    must agree on every case, and a rejected-by-the-model program must be rejected in module Main
+    with compile_sources returning Err."""
+    cases = []
+    tynames = list(JOIN_TYPES)
+    for _ in range(rounds):
+        for construct, n in JOIN_CONSTRUCTS:
+            for context in JOIN_CONTEXTS:
+                for pos in [None] + list(range(n)):
+                    base = rng.pick(tynames)
+                    wrong = rng.pick([t for t in tynames if t != base])
+                    tys = [base] * n
+                    if pos is not None:
+                        tys[pos] = wrong
+                    cases.append((construct, n, context, pos, tys, join_program(rng.fork(), construct, n, tys, context, base)))
+    model = run_model([f"join {'match' if c[0].startswith('match') else 'if'} " + " ".join(JOIN_TYPES[t][1] for t in c[4]) for c in cases])
+    answers = eval_programs([{"sources": {"Main": c[5]}, "entry": "Main", "std": False, "compile": True} for c in cases])
+    for (construct, n, context, pos, tys, src), m, ans in zip(cases, model, answers):
+        stats["join"] += 1
+        label = f"{construct}{n}/{context}/" + ("ok" if pos is None else f"branch{pos}")
+        hist["join:" + construct] = hist.get("join:" + construct, 0) + 1
+        accepted = ans.get("check") == "done" and not ans["errors"] and ans.get("compile") == "ok"
+        why = judge_mutant(ans, "Main")
+        spec_reject = pos is not None
+        if m not in ("0", "1") or (m == "0") != spec_reject:
+            ctx.violation("model of the branch-join rule disagrees with its own specification", {"protocol": "join", "case": label, "types": tys, "model": m,
+                                                                                            "broken": "Model/Assign.lean ifChainOk/matchArmsOk"}, no_input=True)
+            continue
+        if spec_reject:
+            if why is None:
+                stats["join_rejected"] += 1
+            else:
+                stats["join_slipped"] += 1
+                if stats["join_slipped"] <= 4:
+                    ctx.violation(f"wrongly typed branch not rejected ({label}: branch types {tys}): {why}",
+                                  {"protocol": "prog", "mutant": "branch-join " + label, "module": "Main",
+                                   "program": {"sources": {"Main": src}, "entry": "Main", "std": False, "compile": True},
+                                   "answer": ans, "why": why, "model_says": "rejected (ifChain_join_exact / match_join_exact)"})
+        elif not accepted:
+            stats["join_base_rejected"] += 1
+            if stats["join_base_rejected"] <= 2:
+                ctx.violation(f"well-typed join program not accepted ({label}); model and front end disagree",
+                              {"protocol": "prog", "mutant": "branch-join " + label, "module": "Main",
+                               "program": {"sources": {"Main": src}, "entry": "Main", "std": False, "compile": True},
+                               "answer": ans, "broken": "join correspondence (accept side)"}, no_input=True)
+        else:
+            stats["join_accepted"] += 1
+
+
+
 def shrink_program(prog, module, base):
     """Structural shrinking of a generated mutant: drop whole `function fK` definitions of the
     mutated module that are identical to the base program's (so the fault stays), as long as the
@@ -988,7 +1110,7 @@ def run(ctx):
     rng = ctx.rng
     stats = {k: 0 for k in ["tok", "tok_disagree", "tok_literals", "tok_out_of_range", "tok_f1", "lit", "lit_f1",
                             "asg", "asg_disagree", "asg_accept", "asg_anyfree", "slv", "slv_accept",
-                            "base_programs", "mutants", "mutants_rejected", "mutants_slipped", "tok_oracle_fail", "slv_disagree", "asg_spec_fail", "prog_f1", "prog_f2",
+                            "join", "join_rejected", "join_accepted", "join_slipped", "join_base_rejected", "base_programs", "mutants", "mutants_rejected", "mutants_slipped", "tok_oracle_fail", "slv_disagree", "asg_spec_fail", "prog_f1", "prog_f2",
                             "sample_sites_total", "sample_bases_accepted"]}
     hist, errkinds, samples_out = {}, {}, []
     built = os.path.exists(common.harness_bin("C06")) and os.path.exists(common.driver_bin("C06")) and \
@@ -1015,10 +1137,11 @@ def run(ctx):
         check_tok_cases(ctx, cases, stats)
         check_lit(ctx, rng, ctx.scale(1500, 20000), stats)
         check_types(ctx, rng, ctx.scale(20000, 300000), stats)
+        check_joins(ctx, rng, ctx.scale(2, 20), stats, hist)
         check_mutants(ctx, rng, ctx.scale(1600, 12000), ctx.scale(500, 8000), stats, hist, errkinds, samples_out)
     ctx.cov.update({
-        "evaluations": stats["tok"] + stats["lit"] + stats["asg"] + stats["slv"] + stats["mutants"],
-        "distinct_nontrivial": stats["tok_out_of_range"] + stats["asg_accept"] + stats["slv_accept"] + stats["mutants_rejected"],
+        "evaluations": stats["tok"] + stats["lit"] + stats["asg"] + stats["slv"] + stats["mutants"] + stats["join"],
+        "distinct_nontrivial": stats["tok_out_of_range"] + stats["asg_accept"] + stats["slv_accept"] + stats["mutants_rejected"] + stats["join_rejected"],
         "rule": "evaluations = token streams + literal expressions + type pairs + constraint problems + program mutants, each run "
                 "through the real crates; non-trivial = out-of-range literals inside token streams + type pairs the kernel "
                 "accepts (consistent up to any-holes; most pairs differ in one deep position) + accepted constraint problems "
